@@ -1,10 +1,13 @@
-"""C13 — integer result codes (runtime part).
+"""C13 — integer result codes: runtime functions and the generated out-parameter plumbing.
 Case format: '13 | t shape x ; ...'  t: 0 io::Error, 1 (), 2 fmt::Error; shape: 0 Ok(x) with a heap-owning droppable payload,
 1 Err(OS code x), 2 Err(io error without OS code, kind x mod 4), 3 Err of the unit-like type.
 Output row per case: [code; slot written?; decoded variant 0 Ok/1 Err; decoded payload (value / raw OS code / -1);
 into_int_result code; from_int_result_empty variant].  The slot is pre-filled with a 0xAB pattern to see writes.
 Monitor: code==0 iff Ok; slot written iff Ok; decode returns the original variant/payload; the success payload is dropped
-exactly once (by its final owner), never by the encoder; non-zero OS codes survive unchanged."""
+exactly once (by its final owner), never by the encoder; non-zero OS codes survive unchanged.
+Generated part: '1 ..' glue-IR rows of REAL expansions of traits using #[int_result] / #[no_int_result] / both (ok_out parameter, writer tail, decoder tail
+must come together) vs the generator model; '101 ..' compiled programs calling such methods directly and through opaque objects (Ok/Err, OS codes, droppable
+success payloads: codes 16 17 18 19 20 of harness/prog/src/shapes.rs)."""
 PROP = "C13"
 PROP_V = "props/C13.v"
 HARNESS = "rt"
@@ -22,7 +25,47 @@ ASSUMPTIONS = ["rustc, std::io::Error"]
 BOUND = [0, 1, -1, 2, 5, 65535, 65536, -65535, 2 ** 31 - 1, -2 ** 31, 2 ** 31 - 2, 255, 256, 11, 32, 104]
 
 
-def gen_cases(rng, tier):
+from checks import gencommon as G
+
+
+def build_harness(tier):
+    return G.build(tier)
+
+
+def run_impl(lines):
+    return G.run_impl(lines)
+
+
+def model_line(l):
+    return "0 |" if l.startswith("101 ") else l
+
+
+def compare(l, impl_rows, model_rows):
+    return True if l.startswith("101 ") else impl_rows == model_rows
+
+
+def monitor(l, impl_rows, kv):
+    return G.ir_monitor(l, impl_rows) if l.startswith("1 ") else []
+
+
+def generated_cases(rng, tier):
+    cases = []
+    for ti in (0, 1):
+        for recv in (0, 1, 2):
+            for im in (0, 1, 2):
+                for ret in (6, 7, 11, 12):
+                    if G.wf(ti, im, ret):
+                        for args in ([], [(0, 2)], [(1, 0), (4, 3)]):
+                            cases.append("1 %d | %s" % (ti, " ".join(map(str, G.method_row(recv, im, ret, 3, args)))))
+    for kind in (0, 1, 2, 3):
+        ops = [[16, 5], [16, -2], [16, 0], [18, 4], [18, -9], [19, 0], [19, 1], [19, 13], [19, -7], [19, 65535], [19, -2147483648], [19, 2147483647], [20, 3], [20, -1], [20, 0]]
+        cases.append("101 0 %d | %s" % (kind, " ; ".join(" ".join(map(str, o)) for o in ops)))
+    for kind in (0, 1, 3):
+        cases.append("101 1 %d | 17 2 ; 17 3 ; 17 0 ; 17 -1" % kind)
+    return cases
+
+
+def gen_cases_rt(rng, tier):
     n = 4000 if tier == "quick" else 60000
     rows = []
     for x in BOUND:
@@ -38,6 +81,13 @@ def gen_cases(rng, tier):
         cases.append("13 | " + " ; ".join(" ".join(map(str, r)) for r in rows[i:i + 8]))
     dist = {"rows": len(rows), "lines": len(cases), "boundary_values": BOUND}
     return cases, dist
+
+
+def gen_cases(rng, tier):
+    a, d = gen_cases_rt(rng, tier)
+    b = generated_cases(rng, tier)
+    d["generated_plumbing_cases"] = len(b)
+    return a + b, d
 
 
 def nontrivial(l):
